@@ -22,18 +22,20 @@ Put2(g1, s1, g2, s2) == site' = [site EXCEPT ![g1] = s1, ![g2] = s2]
 Keep == UNCHANGED <<emitted, called>>
 
 TSilent ==
-  /\ \/ Free("rh") /\ RHSubscribe /\ Put("rh", "router.runhandlers.started")
+  /\ \/ Free("rh") /\ RHLock /\ UNCHANGED site
+     \/ Free("rh") /\ RHSubscribe /\ Put("rh", "router.runhandlers.started")
      \/ Free("rh") /\ Free("hc") /\ RHSpawn /\ Put("hc", "router.handleclose.before_select")
      \/ Free("pump") /\ PumpRecv /\ (pumpMsg' = None \/ pumpMsg' \in emitted)
         /\ Put("pump", IF pump' = "send" THEN "decorator.sub.before_out" ELSE "decorator.sub.closed")
      \/ Free("pump") /\ Free("loop") /\ PumpSend /\ Put("loop", "router.run.received")
      \/ Free("pump") /\ PumpDrop /\ UNCHANGED site
      \/ Free("loop") /\ LoopAdd /\ Put("loop", "router.run.dispatched")
-     \/ Free("loop") /\ LoopEnd /\ UNCHANGED site
+     \/ Free("loop") /\ (LoopEnd \/ LoopUnreg) /\ UNCHANGED site
      \/ \E m \in Msgs : Free(m) /\ HMStep(m) /\ Put(m, IF hm'[m] = "handling" THEN "router.handle.start" ELSE "")
      \/ Free("hc") /\ (HCSelect \/ HCWaitPump) /\ UNCHANGED site
      \/ Free("run") /\ RunCancel /\ UNCHANGED site
      \/ Free("run") /\ RunReturn /\ Put("run", "router.run.closed_seen")
+     \/ \E c \in Closers : c \in called /\ Free("closer") /\ ClLock(c) /\ UNCHANGED site
      \/ \E c \in Closers : c \in called /\ Free("closer") /\ ClStart(c)
                              /\ Put("closer", IF cl'[c] = "waiting" THEN "router.close.signalled" ELSE "")
      \/ Free("w") /\ W1Done /\ Put("w", "router.close.handlers_wait_done")
@@ -64,7 +66,7 @@ TReset == /\ Is("reset")
           /\ hm' = [m \in Msgs |-> "none"] /\ runningWg' = 0 /\ runningMu' = None /\ handlersWg' = 1
           /\ hc' = "off" /\ run' = "start" /\ ctxCancelled' = FALSE /\ closing' = FALSE /\ closedCh' = FALSE
           /\ closed' = FALSE /\ closedMu' = None /\ cl' = [c \in Closers |-> "idle"] /\ clerr' = [c \in Closers |-> FALSE]
-          /\ w1' = "off" /\ w2' = "off" /\ tmo' = FALSE /\ subCloseCalled' = FALSE /\ pubClosed' = FALSE /\ rh' = "subscribe"
+          /\ w1' = "off" /\ w2' = "off" /\ tmo' = FALSE /\ subCloseCalled' = FALSE /\ pubClosed' = FALSE /\ rh' = "lock" /\ hlMu' = None /\ stoppedCh' = FALSE
           /\ startedCh' = FALSE /\ stopFnSet' = FALSE /\ user' = "wait_started" /\ userStopped' = FALSE /\ dropped' = {} /\ panicked' = FALSE
           /\ site' = [g \in G |-> ""] /\ emitted' = {} /\ called' = {} /\ Adv
 TNext == TReset \/ THook \/ THookRewait \/ TEmit \/ THStart \/ THEnd \/ TCloseCall \/ TCloseRet \/ TRunRet \/ TEnd \/ TSilent
